@@ -161,6 +161,8 @@ pub struct Fs
     pub scope_paths : Option<std::collections::BTreeSet<String>>,
     /* fail injection: make the n-th ruler-issued rename fail (testing only) */
     pub ticks_per_mutation : u64,
+    /* files ruler cannot open for reading (mode 000, another user's file): `open` fails, everything else works */
+    pub unreadable : std::collections::BTreeSet<u64>,
 }
 
 pub struct VInner
@@ -654,6 +656,7 @@ impl VSys
                 in_cmd : HashMap::new(),
                 scope_paths : None,
                 ticks_per_mutation : 7,
+            unreadable : std::collections::BTreeSet::new(),
             }),
         }))
     }
@@ -737,6 +740,24 @@ impl VSys
         }
     }
 
+    /* like `chmod 000` / `chmod 644` by the user */
+    pub fn user_set_unreadable(&self, path : &str, unreadable : bool) -> bool
+    {
+        let mut fs = self.lock();
+        match fs.disk.ino(path)
+        {
+            Some(ino) => { if unreadable { fs.unreadable.insert(ino); } else { fs.unreadable.remove(&ino); } true },
+            None => false,
+        }
+    }
+
+    pub fn any_unreadable(&self) -> bool
+    {
+        let fs = self.lock();
+        let live : std::collections::BTreeSet<u64> = fs.disk.nodes.values().filter_map(|n| match n { Node::File(i) => Some(*i), _ => None }).collect();
+        fs.unreadable.iter().any(|i| live.contains(i))
+    }
+
     pub fn is_dir_now(&self, path : &str) -> bool
     {
         self.lock().disk.is_dir(&norm(path))
@@ -784,7 +805,7 @@ impl System for VSys
         let p = norm(path);
         let result = match fs.disk.nodes.get(&p)
         {
-            Some(Node::File(ino)) => Ok(*ino),
+            Some(Node::File(ino)) => if fs.unreadable.contains(ino) { Err(SystemError::Weird) } else { Ok(*ino) },
             Some(Node::Dir) => Err(SystemError::DirectoryInPlaceOfFile(p.clone())),
             None => if p == "" { Err(SystemError::DirectoryInPlaceOfFile(p.clone())) } else { Err(SystemError::NotFound) },
         };
